@@ -20,7 +20,7 @@ CHECKS = {
          "per-reconcile monitor (update-order / revision-of-created-pod) over recorded API calls", SIM),
  "C11": ("exploration", "Reconciles of paused sets must issue no write at all; reconciles of sets with a deletion timestamp only status writes and bookkeeping of revisions they own; a set deleting in the API never adopts; pause twins (same edits with and without a pause window, through the real handlers and queue) must end in the same converged state.", "4 C11",
          "per-reconcile flag monitor over recorded API calls + pause twins through the event-driven loop (differential final state)", SIM),
- "C12": ("exploration", "Every status write is checked for bounds, observedGeneration, the currentRevision transition rule and as a census of the snapshot (ready / replicas / current / updated) against the stored object before the call; census again at the quiescent fixed point, including after a failing last status write. One open known finding (status conflict-retry path) is listed in known_findings.json.", "4 C12",
+ "C12": ("exploration", "Every status write is checked for bounds, observedGeneration, the currentRevision transition rule and as a census of the snapshot (ready / replicas / current / updated) against the stored object before the call; census again at the quiescent fixed point, including after a failing last status write. The directed stale-status scenarios (conflict on the status write, cache catches up, retry) regress-test the repaired conflict-retry defect (known_findings.json: fixed).", "4 C12",
          "per-write status monitor (bounds, generation, revision transition, census of the snapshot) over recorded API calls + fixed-point census", SIM),
  "C13": ("exploration", "Every ControllerRevision delete is checked for ownership, liveness, count-once, oldest-first and the limit; post-condition after each successful reconcile.", "4 C13",
          "per-reconcile history-delete monitor over recorded API calls", SIM),
